@@ -243,6 +243,18 @@ func direct(c *Ctx, mode, req string, items []RpItem, r *RpResult) {
 			viol("frame", fmt.Sprintf("frame %d (%s): fragment bit set without sub-package fields", k, w.what), Hx(r.Frames[k]), "unfragmented reply")
 			break
 		}
+		if w.short0801 && !w.bodyKnown {
+			// an 0x0801 body under 4 bytes holds no multimedia id at all: nothing is prescribed for the reply body.
+			// Judged as: answering nothing is accepted (optional slot); answering with the id of ANOTHER upload (the
+			// previous one of the connection, 0 on a fresh one) is the recorded finding's behaviour; any other body
+			// is a violation
+			if bytes.Equal(f.Body, w.stale) {
+				viol("0801-short-body", fmt.Sprintf("frame %d (%s): an 0x0801 whose body (under 4 bytes) holds no multimedia id is answered with the id of the previous upload (0 on a fresh connection)", k, w.what), Hx(f.Body), "no reply body is prescribed; the request carries no id")
+				continue
+			}
+			viol("body", fmt.Sprintf("frame %d (%s): reply to an 0x0801 without id carries neither nothing nor the id of the previous upload", k, w.what), Hx(f.Body), "known finding: "+Hx(w.stale))
+			break
+		}
 		if w.short0801 && w.bodyKnown && !bytes.Equal(f.Body, w.body) && !bytes.Equal(f.Body, w.stale) {
 			// neither the id of the request nor the stale id of the recorded finding: not the finding's behaviour
 			viol("body", fmt.Sprintf("frame %d (%s): reply to a short 0x0801 carries neither its own id nor the id of the previous upload", k, w.what), Hx(f.Body), Hx(w.body)+" (or, known finding, "+Hx(w.stale)+")")
@@ -701,10 +713,20 @@ func c06(c *Ctx) {
 		a, b := g.frame(0x1003), g.frame(0x1003)
 		a.Body, b.Body = g.rbytes(10), g.rbytes(10)
 		run([]string{"A", "B"}[rep%2], []string{"B" + Hx(hb.Wire()), "Q-:" + Hx(a.Wire()), "F" + Hx(b.Wire()), g.barrier()}, 0)
+		// a transfer of ONE package (fragment bit, total 1, number 1): answered once, when complete (seed C06-7)
+		one := g.frame([]uint16{0x0200, 0x0704, 0x0800, 0x0102}[rep%4])
+		one.BCD = g.uniquePhone(0x98, one.Ver == 1)
+		one.Body = g.body(one.ID, one.Ver == 1, one.BCD)
+		if len(one.Body) == 0 {
+			one.Body = g.rbytes(5)
+		}
+		whole := one.Body
+		one.Frag, one.Sum, one.No = true, 1, 1
+		run([]string{"A", "B"}[rep%2], []string{"F" + Hx(one.Wire()), "K" + Hx(one.Wire()) + ":" + Hx(whole), "F" + Hx(g.frame(0x0002).Wire()), g.barrier()}, 0)
 		// two uploads: 36 bytes and more, then one whose body is too short for Parse
 		u1, u2 := g.frame(0x0801), g.frame(0x0801)
 		u1.BCD = g.uniquePhone(0x98, u1.Ver == 1)
-		u1.Body, u2.Body = g.rbytes(36+g.rng.Intn(20)), g.rbytes(4+g.rng.Intn(32))
+		u1.Body, u2.Body = g.rbytes(36+g.rng.Intn(20)), g.rbytes([]int{4 + g.rng.Intn(32), g.rng.Intn(4)}[rep%2])
 		run([]string{"A", "B"}[rep%2], []string{"F" + Hx(u1.Wire()), "F" + Hx(u2.Wire()), g.barrier()}, 0)
 	}
 	c.Count("small scope")
